@@ -55,8 +55,17 @@ def relayStatus (cur : OPhase) : List CRef × Bool :=
   | none => (cur.controllerOf, false)
   | some c => if c.obsGen ≠ cur.gen then (cur.controllerOf, false) else (cur.controllerOf, c.status = "True")
 
-/-- `objectSetRemotePhaseReconciler.Reconcile` — get-or-create the phase object (the pass that
-creates it ends with the NotFound error of the preceding Get), propagate pause, relay status. -/
+/-- the part of `Reconcile` after the phase object is at hand: report it in
+status.remotePhases, propagate pause, relay its status. -/
+def remoteContinue (o : OSet) (n : String) (cur : OPhase) (w : World) :
+    World × Except PassErr (List CRef × Bool) :=
+  let w := { w with remoteRefs := addRemote w.remoteRefs (cur.name, cur.uid) }
+  let (w, cur) := propagatePause o n cur w
+  (w, .ok (relayStatus cur))
+
+/-- `objectSetRemotePhaseReconciler.Reconcile` — get-or-create the phase object, then carry on
+with it (since fix C15-a the pass that creates the object no longer ends with the NotFound error
+of the preceding Get: it reports the new object and "no status reported" for the phase). -/
 def remoteReconcile (o : OSet) (ph : PhaseSpec) (w : World) : World × Except PassErr (List CRef × Bool) :=
   let n := phaseName o ph
   match w.phases n with
@@ -66,11 +75,8 @@ def remoteReconcile (o : OSet) (ph : PhaseSpec) (w : World) : World × Except Pa
     let (w, rv) := freshRV w
     let p := { desiredPhase o ph with uid := s!"uid-{uid}", gen := 1, rv := rv }
     let w := { setPhase w n (some p) with phaseEvents := w.phaseEvents ++ [PhaseEvent.create n none] }
-    (w, .error .other)
-  | some cur =>
-    let w := { w with remoteRefs := addRemote w.remoteRefs (cur.name, cur.uid) }
-    let (w, cur) := propagatePause o n cur w
-    (w, .ok (relayStatus cur))
+    remoteContinue o n p w
+  | some cur => remoteContinue o n cur w
 
 /-- `objectSetRemotePhaseReconciler.Teardown`: gone ⇒ done; not controlled by us ⇒ done;
 otherwise delete it and wait until it is gone. -/
